@@ -15,10 +15,8 @@ func (v *Vue) evalInclude(ctx VueContext, node *html.Node, vars map[string]any, 
 	ctx.stack.Push(vars)
 	defer ctx.stack.Pop()
 
-	// Extract slot content from the component tag if not already processed
-	if ctx.SlotScope == nil {
-		ctx.SlotScope = extractSlotContent(node)
-	}
+	// Every component instance gets the slot content supplied on its own tag
+	ctx.SlotScope = extractSlotContent(node)
 
 	// Merge inherited slots from parent template (passed via __slotScope__ in data)
 	if inheritedSlotScopeData, ok := ctx.stack.EnvMap()["__slotScope__"]; ok {
